@@ -118,6 +118,10 @@ impl<A: AttributeBind + AttributeUpdate> UnknownAttributeStorage for AttrSparseV
             Err(e) => abort(e),
         }
     }
+
+    fn clear_slot(&self, trans: &mut Transaction, id: DartIdType) -> StmClosureResult<()> {
+        self.data[id as usize].write(trans, None)
+    }
 }
 
 impl<A: AttributeBind + AttributeUpdate> AttributeStorage<A> for AttrSparseVec<A> {
